@@ -48,6 +48,8 @@ TESTS = {
     "standin_channel_id_text": ("zkabacus-crypto", ["C15", "C16"], ["states.<ChannelId as FromStr>::from_str", "states.<ChannelId as Display>::fmt"]),
     "standin_channel_id_new": ("zkabacus-crypto", ["C18"], ["states.ChannelId::new"]),
     "standin_context_digest": ("zkabacus-crypto", ["C06", "C12"], ["zproofs.Context::new"]),
+    "standin_establish_cheating_prover": ("zkabacus-crypto", ["C01", "C06", "C18"], ["zproofs.EstablishProof::verify"]),
+    "standin_pay_cheating_prover": ("zkabacus-crypto", ["C02", "C06", "C18", "C05"], ["zproofs.PayProof::verify"]),
     "standin_establish_tuple": ("zkabacus-crypto", ["C06", "C01"], ["zproofs.EstablishProof::new", "zproofs.EstablishProof::verify"]),
     "standin_pay_tuple": ("zkabacus-crypto", ["C06", "C02"], ["zproofs.PayProof::new", "zproofs.PayProof::verify"]),
     "standin_no_hidden_slot_exposed": ("zkabacus-crypto", ["C14"], ["zproofs.EstablishProof::new", "zproofs.PayProof::new"]),
